@@ -91,12 +91,20 @@ def call_with(fn, avail: dict):
     kwargs = {}
     for p in sig.parameters.values():
         if p.kind is p.VAR_KEYWORD:
-            return fn(**avail)
+            return _untilde(fn(**avail))
         if p.name in avail:
             kwargs[p.name] = avail[p.name]
         elif p.default is p.empty:
             raise Unsupported(f"contract clause needs {p.name!r}, which is not available")
-    return fn(**kwargs)
+    return _untilde(fn(**kwargs))
+
+
+def _untilde(r):
+    """`~x` in a contract clause means logical negation; on a value that folded to a Python bool it yields -1 / -2
+    (both true as conditions).  Read them as what was meant."""
+    if type(r) is int and r in (-1, -2):
+        return r == -1
+    return r
 
 
 # --------------------------------------------------------------------------- snapshots
@@ -318,6 +326,10 @@ def method_hook(obj: SymObj, name: str):
                 return RepoFn(relpath, qual, raw.__func__)
             if isinstance(raw, pytypes.FunctionType):
                 return pytypes.MethodType(RepoFn(relpath, qual, raw), obj)
+            if hasattr(type(raw), "__get__"):
+                # a slot / data descriptor: an instance field the contract did not declare (returning the descriptor
+                # itself would make `if self.field:` silently true)
+                return NotImplemented
             return raw
     return NotImplemented
 
